@@ -176,7 +176,7 @@ theorem ladder_tri_init : ladder "TriangularLinearOperator" "__init__" =
           "tensor:is_tensor"] := by decide +kernel
 
 theorem table_mul_constant_overriders : overriders "_mul_constant" =
-    ["LinearOperator", "BlockLinearOperator", "DiagLinearOperator", "ConstantDiagLinearOperator",
+    ["LinearOperator", "BlockLinearOperator", "CholLinearOperator", "DiagLinearOperator", "ConstantDiagLinearOperator",
      "IdentityLinearOperator", "InterpolatedLinearOperator", "KroneckerProductDiagLinearOperator",
      "LowRankRootAddedDiagLinearOperator", "MulLinearOperator", "RootLinearOperator", "SumLinearOperator",
      "TriangularLinearOperator"] := by decide +kernel
